@@ -345,6 +345,10 @@ theorem open_channels_stay_in_the_map :
 
 theorem channel_map_has_its_two_removals : PV.Generated.C13.channelMapDeletes.length ≥ 2 := by decide
 
+/-- the transport thread's reads time out on the transport's own short period whatever timeout the application had
+    put on the socket: a local `close()` is noticed within that period (the thread is not woken by it) -/
+theorem transport_polls_its_own_socket_period : PV.Generated.C13.socketPollForced = true := by decide
+
 theorem lock_table_covers_the_send_gate :
     (PV.Generated.C13.lockSites.filter fun s => s.lock == "self.clear_to_send_lock").length ≥ 4 := by decide
 
